@@ -227,6 +227,8 @@ def _is_sim_exc(e):
         return True
     if isinstance(e, (DeserError, codec.XBase, codec.XUnrelated)):
         return True
+    if e.args and isinstance(e.args[0], str) and e.args[0].startswith("sim:"):
+        return True
     return False
 
 
